@@ -27,17 +27,48 @@
 #   record; every name used in a list position in that function (base of x[..], x.length, len(x), receiver of a mutating or
 #   copying method, iterated, destructured, emitted, operand of list +); every name assigned from a list-valued expression
 #   (LV name, copy, concatenation, display, comprehension, get_record / get_rhs call); every parameter bound to one at a call.
-#   Never: self this query_context.  Every other name is UNTRACKED: its value is treated as an opaque cell value.
-#   DEPTH of an LV name (flow-insensitive maximum over its binding sites and over everything stored into it): 1 = a flat row
-#   (get_record(), copies / concatenations of rows, displays without LV elements, a write(..) parameter named like a row),
-#   2 = a container of rows ((key, record), [1, record], a join match), 3 = get_rhs(..); unknown (99) for anything read back
-#   from untracked state.  x[i] / iteration / destructuring of a depth-1 object is a CELL (RCell: never owned - rows are copied
-#   shallowly, so a cell reached through any row may be shared with a source row); of a deeper object it is RElem.
+#   Also: every LOCAL name that is an argument of a call to untranslated code (unknown function / method / constructor) or of a
+#   RESOLVED method (calls rule) - so a cell that travels through a local to such a callee is judged as a cell.
+#   Never: self this query_context.  Every other name is UNTRACKED: its value is treated as an opaque cell value (it may BE a
+#   source cell); an untracked value may be kept anywhere, but whatever is read back from untracked state is a CELL unless
+#   element trust (below) proves the position.
+#   DEPTH of an LV name (flow-insensitive MAXIMUM over its binding sites and over everything stored into it; an UPPER bound):
+#   1 = a flat row (get_record(), copies / concatenations of rows, displays without LV elements, a write(..) parameter named
+#   like a row), 2 = a container of rows, 3 = get_rhs(..); unknown (99) for anything read back from untracked state.  It is
+#   used only to let a CELL into a flat row without a statement (store rule).
+#   ELEMENT TRUST - SHAPE of a value (flow-insensitive MEET over its binding sites and store sites; a LOWER bound; greatest
+#   fixpoint; see "shapes" in the code):  A = untrusted (an atom, a cell, anything that came through an untracked name or unknown
+#   code);  S(pre; s1..sn) = a tracked list object: elements of shape pre, then n fixed last positions (an exact tuple / display
+#   when pre is empty);  M(k, v) = a tracked map.  x[i] / x[x.length-1] / x[-1] / iteration / destructuring / x.pop() / m.get(k) is
+#   classified STEP BY STEP: the result is RElem (an owned object, clean iff the container is) ONLY when that position has a
+#   tracked shape, i.e. at EVERY binding site and store site it syntactically holds a tracked list object (which was SStore'd,
+#   or is a new display / copy); in every other case it is RCell (never clean) - so the cells of a row, a row that was made
+#   "deeper" by storing a list into it, the sort key next to the record in (key, record), a value read back from an attribute
+#   that some site assigns an untracked value, are all CELLS.  (RElem also still needs DEPTH > 1.)
+#   Writer state: ATTR_SHAPES[(class, X)] = the meet over ALL store sites of attribute X in ALL methods (constructors and
+#   untranslated methods included) of the writer classes and of the classes of the RESOLVED methods: self.X = v, self.X.append(v),
+#   self.X[k] = v, self.X.set(k, v), self.X[k].append(v), also through a local alias name = self.X; RET_SHAPES[(class, m)] = the
+#   meet of what method m returns (self.m() is read with it).  A deeper store through state makes X untrusted.  `self.X` itself is
+#   RLoad unless some site assigns it an untrusted value.  For query_context.writer / a writer local the class is not known: the
+#   meet over all classes that have X.
+#   Rule R (aliases): the shape of a NAME is only that name's view.  A name that is MUTATED (method call, x[i] = v, del, +=) must
+#   see every object it may alias (binding from another name, from state, from an element, from a parameter: each alternative
+#   of c ? a : b / a or b is a site of its own) at exactly the shape that source promises (same trust skeleton); if its view lost
+#   a trusted position, or it is bound to the result of an inlined call, or to such a name, the mutation is translated to a
+#   never-safe statement (SAssign t RSrc; SSetItem t; reason in HeapFacts.json "flags").  Hence a store of an untrusted value
+#   through a name cannot invalidate what another name / the writer's state trusts.  A store into writer state from outside the
+#   classes (engine code: W.X.push(v), W.X = v, W.X[k] = v) must not lower ATTR_SHAPES (else never-safe); inside the classes the
+#   site is part of ATTR_SHAPES by construction.
+#   ENTRY contract: a write(..) parameter that is NOT named like a row (JavaScript SortedWriter.write(stable_entry)) has the
+#   declared shape ENTRY = S(A; A, FLAT) (key values .., a number, the row); every emit site whose argument has a trusted position
+#   must emit a value of at least that shape (else never-safe); see ASSUMED.
 #   rhs     y = x -> RVar;  x[:] x[a:b] list(x) tuple(x) sorted(x) x.slice() x.copy() Array.from(x) -> RCopy;  [..]+x+[..],
 #           x.concat(..) -> RConcat (always a new object);  displays, comprehensions, x.map/filter -> RFresh;  x[i], for t in x,
-#           a,b,t = x, x.pop() -> RCell x / RElem x by depth (bound only when the target is an LV name);  *.get_record()
-#           *.get_rhs() *.get_join_records() -> RSrc;  any other expression bound to an LV name -> RSrc in engine code, RLoad in
-#           a writer method when rooted at self/this or a local;  constants -> RFresh (a dummy non-source object).
+#           a,b,t = x, x.pop() -> RCell x / RElem x by ELEMENT TRUST (bound only when the target is an LV name);  x.f for an
+#           attribute f that no builtin container has -> RCell x (a field of a non-list object held by x);  *.get_record()
+#           *.get_rhs() *.get_join_records() -> RSrc;  any other (untracked) expression bound to an LV name -> RSrc in engine
+#           code; in a writer method, when rooted at self/this or a local: RLoad for self.X itself (see ATTR_SHAPES) and for a
+#           position with a tracked shape, otherwise RCell of an RLoad'ed temporary (anything);  constants -> RFresh.
 #   writer-owned state (any code) -> RLoad:  W.attr  or  W.attr[i]..[j]  (one attribute step, then index steps only; no call, no
 #           slice) bound to an LV name, where W is query_context.writer or a WRITER LOCAL: a non-LV local name whose EVERY binding
 #           in the function (closures, loop / handler / import targets, parameters included) is the plain statement
@@ -60,15 +91,22 @@
 #           add/set/update/delete(..) -> SSetItem x  (x may be an expression: x[i].append(..) mutates the cell / element).
 #   emit    query_context.writer.write(..), self.subwriter.write(..), this.subwriter.write(..) -> SEmit of the last argument
 #           (and of any other list-valued argument);  also p.write(..) for a RECEIVER PARAMETER p (calls rule).
-#   store   an LV object placed in a display, stored in an attribute / subscript (also as a key), or passed to a mutating
-#           method of another object -> SStore.  A CELL stored into a flat row (display of depth 1, row.append(cell),
-#           row[i] = cell) needs no statement: the cells of a row are never trusted; stored anywhere else -> SStore (rejected).
+#   store   a value with a TRACKED shape placed in a display, stored in an attribute / subscript (also as a key), or passed to a
+#           mutating method of another object -> SStore (it must be clean: that position may be trusted by a reader).  A value
+#           with shape A (a cell, a name bound to one, the result of untranslated / resolved code) needs NO statement when it
+#           goes (i) into a display (that position of the display has shape A), (ii) into a flat row (depth 1) or into a NAME
+#           whose shape has no trusted element and that passes rule R, (iii) into untracked state (an attribute, a container
+#           reached through an untracked expression): every reader of such a position gets RCell.  Into any other tracked
+#           container -> SStore (rejected for a cell).
 #   unknown an LV object (or an element / cell of one) passed to a function that is neither defined in the translated files nor
-#           in the read-only whitelist, or receiving an unknown method call -> SSetItem + SStore (accepted only for a clean
-#           object, never for a cell).
+#           in the read-only whitelist, or receiving a method call that is unknown but has the name of a builtin container
+#           method -> SSetItem + SStore (accepted only for a clean object, never for a cell).  A method that NO builtin
+#           container type has (x.strip(), x.increment(..)) does nothing to the receiver x (ASSUMED: list objects are builtin
+#           lists / arrays, the call raises on them); its arguments are arguments of an unknown call unless it is RESOLVED.
 #   read    comparisons, truth tests, len, isinstance, str, JSON.stringify, S.join(x), x.join/indexOf/findIndex/..., x.length,
-#           string formatting, csv_utils.*(..) (the CSV string helpers), methods of self.stream / this.stream / sys.stdout (I/O):
-#           no statement.
+#           string formatting (S.format(..) for an untracked S), csv_utils.*(..) (the CSV string helpers), methods of self.stream /
+#           this.stream / sys.stdout (I/O), methods of a string / regular expression / number LITERAL, a method with the name of a
+#           read-only builtin method (get, has, index, keys ..) on an untracked receiver: no statement.
 #   control if/else -> SIf; for/while -> SFor; raise/throw -> nothing (every statement may raise in the semantics);
 #           return/break/continue only in tail position (an `if c: jump` in the middle of a block moves the rest of the block
 #           into the branches that fall through); a return inside a loop is accepted when nothing with an effect follows the
@@ -78,9 +116,19 @@
 #           optional, then SIf(h1', SIf(h2', .. rest)): hi' is handler i - followed by `rest` when it can fall through - and
 #           everything is translated in the tail position of the block (a handler's return there is a return at the end of the
 #           function / loop body).  Every real run is a path: any part of the body, then either one handler (and, if it falls
-#           through, the rest) or the rest.  A return / break / continue inside the try BODY is still refused in that case.
+#           through, the rest) or the rest.  When the try body itself ENDS with `return e` (its only jump): SIf(the whole body with
+#           that return in tail position, [any part of the body with e evaluated for its effects; then the handler chain as
+#           above]).  Any other jump inside the try BODY is still refused in that case.  `if` / `try` statements that contain a
+#           jump on some path (not only at their end) take the rest of the block into the branches that fall through.
 #   calls   a function defined in the translated files (also self.m(..), and self.attr(..) when attr is only ever assigned
 #           methods of the class: one branch per candidate) is inlined with fresh variables; a recursive call is an unknown call.
+#           [new] C(..) for a class C of the translated files that defines __init__ / constructor: the constructor is inlined
+#           (what it keeps: store rule); the new object itself is untracked.
+#           RESOLVED methods (RESOLVED_METHODS = increment, get_final, parse: the aggregators and NumHandler): x.m(..) on an
+#           untracked or cell receiver is resolved BY NAME: one branch per class of the translated files that defines m, each
+#           inlined as a method of that class (self.X is that class's state, ATTR_SHAPES); what it returns has shape A.  A
+#           comprehension whose element contains such a call, or mentions an LV name it does not bind, is translated as the loop
+#           it is (generators bind like for statements; the elements of the result have shape A: no SStore).
 #           RECEIVER PARAMETER: when the argument of an inlined call is self.subwriter / this.subwriter (or a receiver parameter
 #           of the caller) and the callee binds the parameter p nowhere else (closures included), p stands for that receiver:
 #           p.write(..) -> SEmit, p.finish() -> nothing (finish_chain), as for self.subwriter itself.  Not for
@@ -97,16 +145,27 @@
 #           element mentions an LV name it does not bind itself.  (Targets of comprehensions take their DEPTH from the iterable.)
 #   A statement or expression outside these forms raises TranslateError naming file:line.
 #   NOT OF INTEREST (no statement): a statement in which no LV name occurs and that is not one of the forms above; bodies of
-#   lambdas / function expressions that mention no LV name of the enclosing function (refused if they do); constructors
-#   (__init__ / constructor are not translated: the writers' state is assumed to hold no source object when the query starts);
-#   set_header / get_warnings; the contents of UNTRACKED names.
+#   lambdas / function expressions that mention no LV name of the enclosing function (refused if they do); the constructors of
+#   the writers that exist when the query starts (their store sites ARE part of ATTR_SHAPES; the writers' state is assumed to
+#   hold no source object then); set_header / get_warnings; the contents of UNTRACKED names.
 #   ASSUMED: the only calls that return source objects are get_record / get_rhs / get_join_records; an unknown callee reaches
 #   list objects only through its arguments; query_context.writer / self.subwriter / this.subwriter are the only ways to the
 #   next writer.  For the writer-owned-state rule: query_context.writer always is a writer of the chain (checked for the
-#   translated assignments, assumed for the untranslated set-up code); calling a WRITER_CLASSES name constructs that class and,
-#   like every untranslated constructor, keeps only fresh objects and its arguments; values that reach a writer's state through
-#   UNTRACKED names are cell values and are not followed (the same trust a writer method already gives to self.attr[i]).  For
-#   the engine-owned-list rule: attributes are bound only by the translated files (no dynamic attribute store elsewhere).
+#   translated assignments, assumed for the untranslated set-up code); calling a WRITER_CLASSES name constructs that class.
+#   For the engine-owned-list rule and ATTR_SHAPES: the attributes of the writer / aggregator objects are stored to only by the
+#   methods of their classes and by translated engine code (checked there); no dynamic attribute store elsewhere.
+#   ENTRY contract: a writer whose write parameter is an entry (JavaScript SortedWriter) HEADS the chain and is handed only the
+#   entries the engine builds for it (the set-up code installs it exactly when query_context.sort_key_expression is set, and
+#   select_simple emits entries exactly then); the generated theorem quantifies over arbitrary chains, it is meaningful for such a
+#   writer only in that position.  What IS checked: every emitted object with a trusted position has at least the ENTRY shape, and
+#   inside the writer every position other than the last (the row) is read as a cell.
+#   List objects are builtin lists / arrays (Heap.v: field values are atoms, list-valued cells are list objects): a method or
+#   attribute that no builtin container type has raises on them; a method with the name of a read-only builtin method, or of a
+#   string / regular expression / number literal, does not change its arguments.
+#   UNTRACKED values: a value held only by names that are never used in a list position and never handed to untranslated code
+#   through a local (the arguments of user functions in query expressions, module constants) is not mutated in place by the
+#   untranslated code that receives it.  The engine's own paths that hand cell values to untranslated callees were enumerated
+#   (increment / get_final / parse and the token / aggregator constructors): those callees are now translated.
 import ast
 import importlib
 import json
@@ -879,6 +938,7 @@ def compute_depth(body, lv, init):
 A, TOP = 'A', 'TOP'
 FLAGS = []                  # reasons of the never-safe statements emitted by Tr.flag (reported in HeapFacts.json and on stderr)
 LANG = ['py']               # language being translated (iteration of a map yields keys in Python, [key, value] in JavaScript)
+RET_SHAPES = {}             # (class, method) -> meet of the shapes of the values the method returns (computed with ATTR_SHAPES)
 ATTR_SHAPES = {}            # attribute name -> shape of what the writer classes keep there (all store sites, see attr_shapes)
 EMPTY_CTORS = {'list', 'dict', 'set', 'tuple', 'frozenset', 'OrderedDict', 'defaultdict', 'deque', 'Map', 'Set', 'Array', 'Object', 'WeakMap'}
 PAIR_WRAPPERS = {'enumerate'}
@@ -940,6 +1000,8 @@ def elem(s, idx=('any',)):
 
 def homog(s):
     """the same elements without fixed positions (a copy that may be reordered / cut)"""
+    if s == TOP:
+        return TOP                  # nothing known yet (optimistic start of a fixpoint) / nothing there
     if not tracked(s):
         return FLAT
     if s[0] == 'M':
@@ -1223,17 +1285,24 @@ def attr_shapes(source):
                 init = {params[-1]} if (m.name == 'write' and params) else set()
                 lv = compute_lv(m.body, init | (INTEREST & set(pnames)))
                 methods.append((cdef.name, m, lv, shapes))
+    RET_SHAPES.clear()
+    RET_SHAPES.update({(cname, m.name): TOP for cname, m, _lv, _sh in methods})      # optimistic start of the greatest fixpoint
     for _round in range(40):
         base, idx, deep, poison = {}, {}, set(), set()
+        rets = {}
         for cname, m, lv, shapes in methods:
             state = (lambda e, cname=cname: cname if is_self(e) else None)
             env, lossy = compute_shape(m.body, lv, shapes, state)
             sh = Shaper(lv, env, state)
             b, ix = {}, {}
+            rv = [sh.of(n.value) for n in walk_shallow(m.body) if isinstance(n, ast.Return)]
+            rets[(cname, m.name)] = cap(meet_all(rv)) if rv else A
 
             def extra(t):
                 if isinstance(t, ast.Attribute) and is_self(t.value):
                     return ('attr', t.attr)
+                if isinstance(t, ast.Subscript) and not isinstance(t.slice, ast.Slice) and isinstance(t.value, ast.Attribute) and is_self(t.value.value):
+                    return ('sub', t.value.attr)        # self.X[k].append(v): the value kept at X[k] is a list that receives v
                 x = state_attr_root(t, is_self)
                 return ('deep', x) if x is not None else None
             collect_sites(m.body, lv, sh, b, ix, extra)
@@ -1246,6 +1315,8 @@ def attr_shapes(source):
                 if isinstance(k, tuple) and k[0] == 'attr':
                     base.setdefault((cname, k[1]), []).extend(x[0] for x in b.get(k, []))
                     idx.setdefault((cname, k[1]), []).extend(ix.get(k, []))
+                elif isinstance(k, tuple) and k[0] == 'sub' and not ix.get(k):
+                    idx.setdefault((cname, k[1]), []).extend((A, x[0], ('any',)) for x in b.get(k, []))
                 elif isinstance(k, tuple):
                     deep.add((cname, k[1]))
                 else:
@@ -1258,10 +1329,12 @@ def attr_shapes(source):
         new = {}
         for x in set(base) | set(idx) | deep:
             new[x] = A if (x[0] in poison or x in deep) else apply_index_stores(meet_all(base.get(x, [])), idx.get(x, []))
-        if new == ATTR_SHAPES:
+        if new == ATTR_SHAPES and rets == RET_SHAPES:
             break
         ATTR_SHAPES.clear()
         ATTR_SHAPES.update(new)
+        RET_SHAPES.clear()
+        RET_SHAPES.update(rets)
     return ATTR_SHAPES
 
 
@@ -1277,7 +1350,7 @@ def _container_methods():
     """every method name of the builtin CONTAINER types of both languages (a cell that is a list object has no other method)"""
     import collections
     names = set()
-    for ty in (list, dict, set, frozenset, tuple, bytearray, collections.OrderedDict, collections.defaultdict, collections.deque):
+    for ty in (list, dict, set, frozenset, tuple, collections.OrderedDict, collections.defaultdict, collections.deque):
         names.update(n for n in dir(ty) if not n.startswith('__'))
     names.update('''at concat copyWithin entries every fill filter find findIndex findLast findLastIndex flat flatMap forEach includes indexOf join keys
         lastIndexOf map pop push reduce reduceRight reverse shift slice some sort splice toLocaleString toReversed toSorted toSpliced toString unshift
@@ -1408,6 +1481,9 @@ class Shaper:
                     return FLAT
                 if m in ELEM_METHODS:
                     return elem(self.of(f.value))
+                key = self.state(f.value) if is_self(f.value) else None
+                if key and key != '*':
+                    return RET_SHAPES.get((key, m), A)      # a method of the same class: what it returns (every return statement)
             return A
         return A
 
@@ -1457,6 +1533,18 @@ def may_jump_at_tail(s):
         return bool((s.body and may_jump_at_tail(s.body[-1])) or (s.orelse and may_jump_at_tail(s.orelse[-1])))
     if isinstance(s, ast.Try) and not s.orelse and not s.finalbody:
         return bool((s.body and may_jump_at_tail(s.body[-1])) or any(h.body and may_jump_at_tail(h.body[-1]) for h in s.handlers))
+    return False
+
+
+def has_jump(stmts):
+    """some path through these statements (not entering loops or nested definitions) reaches a return / break / continue"""
+    for s in stmts:
+        if isinstance(s, JUMPS):
+            return True
+        if isinstance(s, ast.If) and (has_jump(s.body) or has_jump(s.orelse)):
+            return True
+        if isinstance(s, ast.Try) and (has_jump(s.body) or any(has_jump(h.body) for h in s.handlers) or has_jump(s.orelse) or has_jump(s.finalbody)):
+            return True
     return False
 
 
@@ -1892,6 +1980,11 @@ class Tr:
                 if len(cands) > 1:
                     self.fail(c, 'call of %r: %d definitions with that name' % (f.id, len(cands)))
                 return self.inline(cands[0][0], cands[0][1], c.args, c, None)
+            ctor = self.constructor_of(f.id)
+            if ctor is not None and f.id not in sc.locals:
+                # [new] C(..) for a class of the translated files: its constructor runs (what it keeps in attributes: store rule)
+                self.inline(ctor[0], ctor[2], c.args, c, (ctor[1], ctor[2]), 'writer')
+                return ('unknown', c)
         # 4. methods of the current class
         if isinstance(f, ast.Attribute) and isinstance(f.value, ast.Name) and f.value.id in ('self', 'this') and sc.cls is not None:
             targets = self.resolve_method(f.attr)
@@ -1957,9 +2050,9 @@ class Tr:
                 for a in c.args + kwvals:
                     self.read(a)
                 return ('scalar',)
-            if expr_text(f.value) in IO_RECEIVERS:
+            if expr_text(f.value) in IO_RECEIVERS or isinstance(f.value, ast.Constant):
                 for a in c.args + kwvals:
-                    self.read(a)
+                    self.read(a)            # I/O; a method of a string / regular expression / number LITERAL only reads its arguments
                 return ('scalar',)
             kr = self.classify(f.value)
             if kr[0] in ('cell', 'unknown') and m in RESOLVED_METHODS and not kwvals and not any(isinstance(a, ast.Starred) for a in c.args):
@@ -2209,6 +2302,12 @@ class Tr:
             elif isinstance(n, ast.ExceptHandler) and n.name:
                 locals_.add(n.name)
         lv = compute_lv(body, set(init_lv) | (INTEREST & set(params)), emit_alias)
+        probe = Scope(prefix, lv, locals_, ctx, cls, fname, label)
+        probe.emit_alias = set(emit_alias)
+        for n in walk_shallow(body):
+            # a local name handed to untranslated code is tracked: if it holds a cell (or a source), the call is judged as such
+            if isinstance(n, ast.Call) and self.unknown_callee(n, probe):
+                lv |= ({a.id for a in n.args + [k.value for k in getattr(n, 'keywords', [])] if isinstance(a, ast.Name)} & locals_) - NEVER_LV - set(emit_alias)
         sc = Scope(prefix, lv, locals_, ctx, cls, fname, label)
         sc.emit_alias = set(emit_alias)
         sc.owned_alias = owned_aliases(body, params) & lv
@@ -2259,6 +2358,37 @@ class Tr:
             return None
         return pred
 
+    def constructor_of(self, cname):
+        got = self.src.klass(cname) if not self.src.function(cname) else None
+        if got is None:
+            return None
+        for m in got[0].body:
+            if isinstance(m, (ast.FunctionDef, ast.AsyncFunctionDef)) and m.name in ('__init__', 'constructor'):
+                return (m, got[0], got[1])
+        return None
+
+    def unknown_callee(self, c, sc):
+        """the call c goes to code that is neither translated nor one of the known read-only / container operations"""
+        f = c.func
+        if isinstance(f, ast.Name):
+            if f.id in PURE_FUNCS or f.id in COPY_FUNCS or f.id in ITER_WRAPPERS or f.id in LISTY_FUNCS or f.id in EMPTY_CTORS or f.id == 'throw':
+                return False
+            return not (self.src.function(f.id) or self.constructor_of(f.id))
+        if isinstance(f, ast.Attribute):
+            m = f.attr
+            if m in MUTATORS or m in COPY_METHODS or m in FRESH_METHODS or m in READ_METHODS or m in ELEM_METHODS or m in ITER_METHODS \
+                    or m in SRC_METHODS or m in RESOLVED_METHODS or m in ('format', 'join', 'concat'):
+                return False
+            if m in ('write', 'finish') and is_emit_receiver(f.value, sc.emit_alias if sc else ()):
+                return False
+            if expr_text(f.value) in IO_RECEIVERS or (isinstance(f.value, ast.Name) and f.value.id in PURE_NAMESPACES):
+                return False
+            if is_self(f.value) and sc is not None and sc.cls is not None and any(
+                    isinstance(d, (ast.FunctionDef, ast.AsyncFunctionDef)) and d.name == m for d in sc.cls[0].body):
+                return False
+            return True
+        return True
+
     def is_inlined_call(self, c, sc):
         f = c.func
         if isinstance(f, ast.Name) and f.id not in sc.lv:
@@ -2287,7 +2417,7 @@ class Tr:
             if isinstance(s, JUMPS):
                 self.jump(s, tail)
                 return                  # anything after a jump is dead code
-            if isinstance(s, ast.If) and rest and may_jump_at_tail(s):
+            if isinstance(s, ast.If) and rest and has_jump([s]):
                 # some path through this `if` ends with return / break / continue: move the rest of the block into every
                 # branch that can fall through (recursively, when the branch is translated)
                 body, orelse = list(s.body), list(s.orelse)
@@ -2305,7 +2435,7 @@ class Tr:
             body_returns = isinstance(s, ast.Try) and bool(s.body) and isinstance(s.body[-1], ast.Return) \
                 and not any(isinstance(n, JUMPS) for n in walk_shallow(s.body[:-1]))
             if isinstance(s, ast.Try) and rest and not s.orelse and not s.finalbody and s.handlers \
-                    and (body_returns or any(may_jump_at_tail(h.body[-1]) for h in s.handlers if h.body)):
+                    and (body_returns or any(has_jump(h.body) for h in s.handlers)):
                 # a handler leaves by return / break / continue while statements follow the try: the body runs (any part
                 # of it), then EITHER one handler runs - followed by the rest of the block if it can fall through - OR the
                 # rest of the block runs.  When the body itself ends with `return e` (its only jump): EITHER the whole body
